@@ -31,7 +31,7 @@ type histCase struct {
 var histTreeCfg = h.TreeCfg{
 	MaxEntries: 10, MaxDepth: 3, Names: []string{"a", "b", "ab", "a-b", "a.b", "c", "a0", "d"},
 	Xattrs: true, XattrNS: []string{"user.", "trusted."}, Hardlinks: true, BigFiles: true,
-	SymTargets: []string{"a", "b", "../a", "/a", "dangling"},
+	SymTargets: []string{"a", "b", "../a", "/a", "dangling"}, UncleanTargets: true,
 }
 
 func genHist(t *rapid.T, allowDiffNone bool) *histCase {
